@@ -41,6 +41,9 @@ type c19Case struct {
 	// EncKey: the key in the encryption slot(s) instead of the usual RSA-2048 ones: "KM"
 	// (RSA-3072) or "KL" (RSA-4096)
 	EncKey string `json:"encryption_key,omitempty"`
+	// Before k>0: another metadata call is made first on the same instance (k=1 Metadata(), k>1
+	// MetadataWithSLO(c19Hours[k-2])); the judged call follows it
+	Before int `json:"earlier_call_on_the_same_instance,omitempty"`
 }
 
 func c19Keys() []c13Keys {
@@ -134,6 +137,15 @@ func c19ExecPass(c c19Case, afterScribble bool) (keys []string, detail, class st
 			}
 		})
 		copyConfig(sp, fresh)
+	}
+	if c.Before > 0 {
+		guard(func() {
+			if c.Before == 1 {
+				sp.Metadata()
+			} else {
+				sp.MetadataWithSLO(c19Hours[c.Before-2])
+			}
+		})
 	}
 	p := guard(func() {
 		if c.SLO {
@@ -395,7 +407,7 @@ func c19Replay(raw json.RawMessage) ([]string, string) {
 }
 
 func c19Run(r *mc.Run) {
-	r.Rule = "full product key configuration(12 with an encryption key) x SignAuthnRequests x SkipSignatureValidation x {Metadata, MetadataWithSLO(h) for h in -5,0,1,24,168,8760,10^6} x clock(5), with signing/decryption cross-checks (a signed AuthnRequest of the same SP verifies with the published signing certificate; an assertion encrypted to the published encryption certificate under each listed method, at every plaintext length modulo 16, is decrypted by the same SP) on the key-configuration dimension (field key stores as dsig.TLSCertKeyStore and as a key store of a custom type; SP encryption keys of RSA-2048, and per key configuration RSA-3072 and RSA-4096), plus <=1 (quick) / <=2 (thorough) special strings among issuer / ACS URL / SLO URL; each case judged on a fresh instance and again after a caller wrote over every field, slice element and map entry of earlier results; XML marshal is parsed by encoding/xml and must unmarshal back to equal values. non-trivial = metadata was produced and compared; distinct = distinct case"
+	r.Rule = "full product key configuration(12 with an encryption key) x SignAuthnRequests x SkipSignatureValidation x {Metadata, MetadataWithSLO(h) for h in -5,0,1,24,168,8760,10^6} x clock(5), with signing/decryption cross-checks (a signed AuthnRequest of the same SP verifies with the published signing certificate; an assertion encrypted to the published encryption certificate under each listed method, at every plaintext length modulo 16, is decrypted by the same SP) on the key-configuration dimension (field key stores as dsig.TLSCertKeyStore and as a key store of a custom type; SP encryption keys of RSA-2048, and per key configuration RSA-3072 and RSA-4096), plus every ordered pair of metadata calls (Metadata, MetadataWithSLO(h) for the 7 values of h) on one instance with the second one judged, plus <=1 (quick) / <=2 (thorough) special strings among issuer / ACS URL / SLO URL; each case judged on a fresh instance and again after a caller wrote over every field, slice element and map entry of earlier results; XML marshal is parsed by encoding/xml and must unmarshal back to equal values. non-trivial = metadata was produced and compared; distinct = distinct case"
 	var cases []c19Case
 	nk := len(c19Keys())
 	mc.Enumerate(-1, r.Expired, func(ch *mc.Chooser) {
@@ -415,6 +427,13 @@ func c19Run(r *mc.Run) {
 			cases = append(cases, c)
 		}
 	})
+	// every ordered pair of metadata calls on one instance: the second is the one judged
+	for before := 1; before <= len(c19Hours)+1; before++ {
+		cases = append(cases, c19Case{Str: make([]int, 3), Keys: 1, Before: before})
+		for hi := range c19Hours {
+			cases = append(cases, c19Case{Str: make([]int, 3), Keys: 1, SLO: true, Hours: hi, Before: before})
+		}
+	}
 	// larger SP encryption keys (the transported key grows with the modulus)
 	for ki := 0; ki < nk; ki++ {
 		for _, ek := range []string{"KM", "KL"} {
